@@ -158,6 +158,24 @@ def r2_ref_patterns(text, log):
         pat = mm.group(1)
         if '&' not in pat:
             continue
+        mt = re.match(r'&\s*\(\s*((?:[a-z_][a-z0-9_]*\s*,\s*)*[a-z_][a-z0-9_]*)\s*\)\s*$', pat)
+        if mt:
+            # `for &(a, _) in E {` -> `for t__rN in E { let (a, _kN) = *t__rN;` (tuple of Copy components; `_` gets a fresh name)
+            from .rustscan import next_code
+            ob = next_code(text, sn_mask, mm.end(), '{')
+            if ob < 0:
+                raise ScanError('R2: for loop without body')
+            tn = 't__r%d' % (len(out) + 1)
+            comps = [c_.strip() for c_ in mt.group(1).split(',')]
+            comps = [('_k%d' % k_ if c_ == '_' else c_) for k_, c_ in enumerate(comps)]
+            lets = ' let (%s) = *%s;' % (', '.join(comps), tn)
+            out.append(text[last:mm.start()])
+            out.append('for %s in' % tn)
+            out.append(text[mm.end():ob + 1])
+            out.append(lets)
+            log.append(dict(rule='R2', before=norm_ws(text[mm.start():ob + 1]), after=norm_ws('for %s in%s%s' % (tn, text[mm.end():ob + 1], lets))))
+            last = ob + 1
+            continue
         names = re.findall(r'&\s*(?:mut\s+)?([a-z_][a-z0-9_]*)', pat)
         if not names:
             continue
@@ -533,3 +551,21 @@ def r18_enumerate(text, log):
         log.append(dict(rule='R18', before=norm_ws(mm.group(0)), after=new))
         return new
     return _R18.sub(repl, text)
+
+
+_R19 = re.compile(r'((?:[A-Za-z_][A-Za-z0-9_]*)(?:\.[A-Za-z_][A-Za-z0-9_]*)*)\s*\.extend\(\s*((?:[A-Za-z_][A-Za-z0-9_]*)(?:\.[A-Za-z_][A-Za-z0-9_]*)*)\.iter\(\)\s*\.map\(\s*\|\s*\(\s*([a-z_][a-z0-9_]*)\s*,\s*([a-z_][a-z0-9_]*)\s*\)\s*\|\s*\(\s*\3\.clone\(\)\s*,\s*\4\.clone\(\)\s*\)\s*\)\s*\)')
+
+
+def r19_extend_cloned(text, log):
+    """R19: `DST.extend(SRC.iter().map(|(k, v)| (k.clone(), v.clone())))` on maps (DST, SRC plain paths) -> `map_extend_cloned(&mut DST, &SRC)`:
+    a wrapper the unit defines, whose body is the original statement (iterator adapters and closures over tuple patterns are
+    outside Verus)."""
+    mask = code_mask(text)
+
+    def repl(mm):
+        if mask[mm.start()] != CODE:
+            return mm.group(0)
+        new = 'map_extend_cloned(&mut %s, &%s)' % (mm.group(1), mm.group(2))
+        log.append(dict(rule='R19', before=norm_ws(mm.group(0)), after=new))
+        return new
+    return _R19.sub(repl, text)
